@@ -333,19 +333,62 @@ def _task_one(task):
     return t
 
 
+def _task_many_files(task):
+    """A long file list (a day of one-file-per-pass data): more files than the process may hold open at once.  The soft descriptor limit is
+    lowered for the duration of the call, as it is on machines with the customary limits of 256 or 1024."""
+    import resource
+    t = Tally()
+    work = task["work"]
+    os.makedirs(work, exist_ok=True)
+    doc = make_doc("intwidths")
+    defn = load_doc(doc)
+    import struct
+    pats = list(c01.base_patterns().values())
+    a_pkts = []
+    for j, pat in enumerate(pats):
+        pkt, o = c01.fit(doc, 1, pat, seqcount=j)
+        if o.kind == "parsed" and not o.overrun:
+            a_pkts.append(pkt)
+    files, stream = [], []
+    d = os.path.join(work, f"c18many_{os.getpid()}")
+    os.makedirs(d, exist_ok=True)
+    for i in range(task["n_files"]):
+        pk = [a_pkts[i % len(a_pkts)]] if i % 3 else [framing.mk_packet(struct.pack(">Hf", i, i / 4), apid=2, seqcount=i)]
+        path = os.path.join(d, f"pass_{i:04d}.pkts")
+        with open(path, "wb") as f:
+            f.write(b"".join(pk))
+        files.append(path)
+        stream += pk
+    soft, hard = resource.getrlimit(resource.RLIMIT_NOFILE)
+    in_use = len(os.listdir("/proc/self/fd"))
+    try:
+        resource.setrlimit(resource.RLIMIT_NOFILE, (min(hard, in_use + 48), hard))
+        for use_raw in (False, True):
+            check_dataset(t, defn, doc, files, stream, use_raw, {"kind": "intwidths", "kind_name": "intwidths", "variant": f"{len(files)} files, descriptor limit {in_use + 48}",
+                                                                  "use_raw_values": use_raw, "many_files": task["n_files"]}, False)
+    finally:
+        resource.setrlimit(resource.RLIMIT_NOFILE, (soft, hard))
+        import shutil
+        shutil.rmtree(d, ignore_errors=True)
+    t.nontrivial += 1
+    return t
+
+
 def run(ctx):
     ks = ["intwidths"] + [i for i, k in enumerate(c01.pal()) if k.name != "u72"]
     # interleave unlike kinds (ints, floats, strings, binaries ...) within one task
     groups = [ks[i::24] for i in range(24)]
     tasks = [{"kinds": g, "work": ctx.work, "max_len": 3 if ctx.quick else 4} for g in groups if g]
     tally = fan_out(_task, tasks, jobs=ctx.jobs, seed=ctx.seed)
+    tally.merge(fan_out(_task_many_files, [{"work": ctx.work, "n_files": n} for n in ((300,) if ctx.quick else (300, 1100))], jobs=2, seed=ctx.seed))
     coverage = {
         "programs": tally.programs,
         "exhaustive": True,
         "bound": (f"{len(ks)} definitions (each palette field kind on APID 1 + a boundary set of signed/unsigned widths 1..64; a fixed layout on APID 2; a polymorphic APID 3; an APID 4 whose packets share one field set in two field orders) x "
                   "8 pattern payloads + 12 dtype-stress payloads (leading/trailing/embedded NUL, spaces, non-ASCII, tiny/huge MIL-STD-1750A, integer extremes) singly and "
                   f"together x use_raw_values {{F,T}}; every APID interleaving of <= {3 if ctx.quick else 4} packets over a 4-packet family x file lists [f1], [f1,f2], [f2,f1], [f1+stray bytes,f2], [f1+incomplete packet,f2]; "
-                  "generator keyword arguments handed through (skip_header_bytes=4 on prefixed records, parse_bad_pkts in {F,T} with over-long packets in the stream) and the definition given as a str / Path"),
+                  "generator keyword arguments handed through (skip_header_bytes=4 on prefixed records, parse_bad_pkts in {F,T} with over-long packets in the stream) and the definition given as a str / Path; "
+                  "a list of 300 (thorough: 1100) one-packet files under a soft descriptor limit of ~50 above what the process already has open"),
         "rule": "one evaluation = one create_dataset call compared cell by cell with packet_generator's items; distinct non-trivial = distinct value packets per field kind",
     }
     return {"level": LEVEL, "tally": tally, "coverage": coverage,
@@ -355,6 +398,9 @@ def run(ctx):
 
 def replay(case):
     import os as _os
+    if case.get("many_files"):
+        t = _task_many_files({"work": _os.path.join(_os.path.dirname(_os.path.dirname(_os.path.dirname(_os.path.abspath(__file__)))), ".work"), "n_files": case["many_files"]})
+        return t.violations[0] if t.violations else None
     t = _task_one({"kind": case["kind"], "work": _os.path.join(_os.path.dirname(_os.path.dirname(_os.path.dirname(_os.path.abspath(__file__)))), ".work"), "max_len": 3})
     for v in t.violations:
         if v["case"].get("packets") == case.get("packets") and v["case"].get("use_raw_values") == case.get("use_raw_values") \
